@@ -23,7 +23,6 @@ Binding: every TLC-enumerated session selected for the tier is rendered by
 """
 import json
 import os
-import random
 import re
 import subprocess
 import sys
@@ -142,11 +141,11 @@ def select(ctx, sessions, quick):
             for sh in rest:
                 add(rng.choice(shapes[sh]), *rng.choice(combos))
         else:
+            cap = {"A2": 8 if repo else 4, "A3": 6, "A4": 8, "B": 8}
             for sh in rest:
                 cands = shapes[sh]
-                if sh in ("A3", "A4"):
-                    cands = rng.sample(cands, min(len(cands),
-                                                  12 if sh == "A3" else 16))
+                if sh in cap and len(cands) > cap[sh]:
+                    cands = rng.sample(cands, cap[sh])
                 for s in cands:
                     add(s, *rng.choice(combos))
     return jobs
@@ -344,7 +343,7 @@ def judge(ctx, runs, label):
     return verdicts
 
 
-def collect_drift(ctx, first_tlc, runs_by_batch):
+def collect_drift(ctx, runs_by_batch):
     """<<"D", tid, l, {..}>> lines of the trace validation runs."""
     for n, runs in runs_by_batch.items():
         path = os.path.join(ctx.work, "tlc%d.out" % n)
@@ -449,14 +448,10 @@ def run(ctx):
     nproc = max(2, min(12, (os.cpu_count() or 4) - 2))
     timeout = 10.0 if quick else 20.0
     chosen = select(ctx, sessions, quick)
-    if not quick and len(chosen) > 45000:
-        keep = [s for s in chosen if len(s["main"]) <= 2]
-        rest = [s for s in chosen if len(s["main"]) > 2]
-        chosen = keep + ctx.rng.sample(rest, max(0, 45000 - len(keep)))
     t0 = time.time()
     runs = execute(ctx, chosen, nproc, timeout)
     # ---- 3. seeded random driver (several defects, any token position) ------
-    nrand = 300 if quick else 6000
+    nrand = 300 if quick else 5000
     rs = random_sessions(ctx.rng, focus, nrand)
     runs_r = execute(ctx, rs, nproc, timeout, sid0=len(chosen))
     ctx.extra["driver_wall_s"] = round(time.time() - t0, 1)
@@ -472,7 +467,7 @@ def run(ctx):
     batches = {}
     for i in range(0, len(all_runs), 3000):
         batches[n0 + 1 + i // 3000] = all_runs[i:i + 3000]
-    collect_drift(ctx, n0, batches)
+    collect_drift(ctx, batches)
 
     # ---- evidence -------------------------------------------------------------
     outs, by_api, calls = {}, {}, {}
